@@ -546,8 +546,9 @@ type body struct {
 	r       *bfe_bufio.Reader // underlying wire-format reader for the trailer
 	closing bool              // is the connection to be closed after reading body?
 
-	mu     sync.Mutex // guards closed, and calls to Read and Close
-	closed bool
+	mu         sync.Mutex // guards closed, and calls to Read and Close
+	closed     bool
+	trailerErr error // sticky: reading the trailer failed (the position in r is unknown)
 }
 
 // ErrBodyReadAfterClose is returned when reading a Request or Response
@@ -567,6 +568,11 @@ func (b *body) Read(p []byte) (n int, err error) {
 
 // Must hold b.mu.
 func (b *body) readLocked(p []byte) (n int, err error) {
+	if b.trailerErr != nil {
+		// don't report a clean EOF after a failed trailer: whoever drains the
+		// body next must learn that the stream is out of sync
+		return 0, b.trailerErr
+	}
 	n, err = b.src.Read(p)
 
 	if err == io.EOF {
@@ -574,6 +580,7 @@ func (b *body) readLocked(p []byte) (n int, err error) {
 		if b.hdr != nil {
 			if e := b.readTrailer(); e != nil {
 				err = e
+				b.trailerErr = e
 			}
 			b.hdr = nil
 		} else {
